@@ -25,8 +25,20 @@ THOROUGH = QUICK + [
 ]
 
 
+EXTRA = [  # (script, mode, batch, tb, cap)
+    ("1,2,6,1", 0, 0, 2, 6), ("1,2,6,1", 1, 0, 2, 6), ("1,6,2", 0, 0, 1, 6),      # pill for a recipient without tokens
+    ("1,2,3", 0, 0, 0, 2), ("1,2,3,4", 0, 0, 0, 2), ("3,1,2", 0, 2, 0, 1),        # more messages than the mailbox holds
+]
+
+
 def jobs(tier):
     js = []
+    for sc, mode, batch, tb, cap in EXTRA:
+        name = "C08.s%s.m%d.b%d.tb%d.cap%d" % (sc.replace(",", "_"), mode, batch, tb, cap)
+        js.append(l2_job(name, "l2/c08_order.c", defines={"SCRIPT": "{%s}" % sc, "MODE": mode, "BATCH": batch, "TB": tb, "CAP": cap,
+                                                            "VF_LOGN": 8, "VF_PIPE_MAX": 6},
+                         symbolic=["errno left by handlers (int)", "quit code (uint8)"],
+                         bounds="script %s, mode %d, batch %d, bucket %d, pipe capacity %d" % (sc, mode, batch, tb, cap), unwind=14))
     for sc, mode, batch in (QUICK if tier == "quick" else THOROUGH):
         name = "C08.s%s.m%d.b%d" % (sc.replace(",", "_"), mode, batch)
         js.append(l2_job(name, "l2/c08_order.c", defines={"SCRIPT": "{%s}" % sc, "MODE": mode, "BATCH": batch, "VF_LOGN": 8, "VF_PIPE_MAX": 6},
